@@ -233,6 +233,19 @@ class RefRun(object):
             elif st == 'ERROR':
                 j.state_info_class = 'join-failed'
                 self.join_env(j)
+                # A join fails as soon as one inbound task is known not to
+                # route to it, possibly while other inbound branches are
+                # still running: only the inbound tasks that induce the
+                # failure are causal ancestors, and the context it sees is
+                # timing dependent.
+                j.anc = set()
+                for p_ in self.inbound_specs(j.task['name']):
+                    for po in (self.by_name.get(p_) or [])[-1:]:
+                        if po.state in ('SUCCESS', 'ERROR', 'CANCELLED',
+                                        'SKIPPED') and j.task['name'] not in \
+                                [n for n, _ in po.next]:
+                            j.anc |= po.anc | {po.id}
+                j.env = dict((k, (RACY, -1)) for k in j.env)
                 # (impl) a join failed by its inbound tasks completes like
                 # any task: publish-on-error is evaluated, task().result is
                 # the empty list because nothing was executed
@@ -306,10 +319,10 @@ class RefRun(object):
             return 'WAITING'
         card = 1 if jn == 'one' else int(jn)
         if runs >= card:
-            if runs < total and induced.count('WAITING') + runs > card - 1 \
-                    and runs != total:
-                # more inbound branches may still arrive: data is timing
-                # dependent
+            if runs < total or total > card:
+                # more inbound branches than needed: which of them made it
+                # into the context, and whether a late one re-triggers the
+                # join (see KNOWN_FINDINGS C04), depends on timing
                 j.partial_open = True
             return 'RUNNING'
         if errs > total - card:
@@ -318,6 +331,10 @@ class RefRun(object):
 
     def start_join(self, j):
         self.join_env(j)
+        if getattr(j, 'partial_open', False):
+            self.exact = False
+            self.racy_tasks = True
+            self.notes.append('open partial join %s' % j.label)
         self.exec_occ(j)
 
     def join_env(self, j):
@@ -554,10 +571,13 @@ class RefRun(object):
         try:
             pub = self.eval_publish(o, st, res)
         except EvalError:
-            o.published = {}
+            # (impl) variables published by an earlier attempt stay
             self.structural_error(o, keep_exec=True)
             return 'structural'
-        o.published = pub['branch']
+        if pub['has_spec']:
+            o.published = pub['branch']
+        # (impl) without a publish clause for this state the variables
+        # published by an earlier attempt stay
         for k, v in pub['global'].items():
             self.globals[k] = v
         fo = self.policy(t, 'fail_on')
@@ -582,6 +602,10 @@ class RefRun(object):
             except EvalError:
                 self.structural_error(o, keep_exec=True)
                 return 'structural'
+            if is_racy(cv) or is_racy(bv):
+                self.exact = False
+                self.racy_tasks = True
+                self.notes.append('retry condition on unspecified value')
             remain = attempt < retry['count']
             stop = (st == 'SUCCESS' and cont_on is None) or \
                 (cont_on is not None and not cv)
@@ -619,16 +643,18 @@ class RefRun(object):
                     branch[k] = self.ev(e, o, None, res)
                 for k, e in sorted((a.get('global') or {}).items()):
                     glob[k] = self.ev(e, o, None, res)
-        return {'branch': branch, 'global': glob}
+        return {'branch': branch, 'global': glob,
+                'has_spec': bool(spec) or bool(adv) or bool(adv_c)}
 
-    def structural_error(self, o, keep_exec=False):
+    def structural_error(self, o, keep_exec=False, keep_next=False):
         """Expression failure: task ERROR, workflow ERROR at once; not
         catchable by on-error."""
         o.state = 'ERROR'
         o.structural = True
         o.error_handled = False
-        o.next = []
-        o.has_next = False
+        if not keep_next:
+            o.next = []
+            o.has_next = False
         o.state_info_class = 'expression-error'
         if not self.terminal():
             self.set_terminal('ERROR', 'expression-error', o)
@@ -675,6 +701,7 @@ class RefRun(object):
             return
         except RacyGuard:
             self.exact = False
+            self.racy_tasks = True
             self.notes.append('racy guard at %s' % o.label)
             cmds = []
         if self.terminal():
@@ -710,6 +737,14 @@ class RefRun(object):
             if to == 'fail':
                 self.set_terminal('ERROR', 'other', o)
             elif to == 'succeed':
+                # output is evaluated before the state is set; a failing
+                # output expression is a structural error of this task
+                try:
+                    self.forced_output = self.eval_output(
+                        self.wf.get('output'))
+                except EvalError:
+                    self.structural_error(o, keep_exec=True, keep_next=True)
+                    return
                 self.succeed_cmd = True
                 self.set_terminal('SUCCESS', 'none', o)
             elif to == 'pause':
@@ -796,7 +831,9 @@ class RefRun(object):
                 self.state = 'ERROR'
                 self.state_info_class = 'task-error'
         out = None
-        if self.state == 'SUCCESS':
+        if self.state == 'SUCCESS' and hasattr(self, 'forced_output'):
+            out = self.forced_output
+        elif self.state == 'SUCCESS':
             try:
                 out = self.eval_output(self.wf.get('output'))
             except EvalError:
@@ -952,6 +989,8 @@ def compare(refrun, ref_rec, canon, level='data'):
                 lab, r['state'], e['state']))
             continue
         if r['structural']:
+            continue
+        if r['state'] not in ('SUCCESS', 'ERROR', 'CANCELLED', 'SKIPPED'):
             continue
         if r['state'] == 'ERROR' and r['error_handled'] != \
                 e['error_handled']:
